@@ -620,6 +620,10 @@ type vgenOpts struct {
 	// small whatever the schema's fan-out is; nodes counts what has been generated so far.
 	MaxNodes int
 	nodes    int
+	// DenseLists: now and then a list of integers / doubles is long (50-350 elements) and holds one-digit values:
+	// its Thrift form is several times larger than its JSON form, so that output buffers sized after the input
+	// run full in the middle of the list
+	DenseLists bool
 	// DeepSelf: a non-required field of the enclosing struct's own type is present with this probability
 	// (percent) while depth remains - chains of nested structs as deep as Depth
 	DeepSelf int
@@ -782,6 +786,15 @@ func (g *vgen) value(t *TType, depth int) *TVal {
 		n := 0
 		if depth > 0 {
 			n = sizeClass(g.t, "list.n", g.o.MaxElems)
+		}
+		if g.o.DenseLists && depth > 0 && t.Kind == tLIST && (t.Elem.Kind == tI64 || t.Elem.Kind == tI32 || t.Elem.Kind == tDOUBLE) && g.t.Chance(1, 3, "list.dense") {
+			n = 50 + g.t.Intn(300, "list.dense.n")
+			for i := 0; i < n; i++ {
+				d := int64(g.t.Intn(10, "list.dense.v"))
+				v.List = append(v.List, &TVal{T: t.Elem, I: d, D: float64(d)})
+			}
+			g.o.nodes += n
+			return v
 		}
 		seen := map[string]bool{}
 		for i := 0; i < n; i++ {
